@@ -21,6 +21,13 @@ fn worlds(thorough: bool) -> Vec<Built> {
     let deep_roots: Vec<(&'static str, Vec<Op>)> =
         vec![("deep", vec![Op::Inc { pos: 0, liq: 1u128 << 72, v2: true }, Op::Inc { pos: 1, liq: 1u128 << 66, v2: false }, Op::Inc { pos: 2, liq: 1u128 << 66, v2: true }])];
     v.push(stdworlds::build_with_roots(&stdworlds::ts1_spec("c06-deep"), &deep_roots));
+    // full-range-only pool with thin liquidity: a large exact-in swap without a price limit runs the price to the protocol bound
+    // and is only partially filled ("an exact-in budget cannot move the price further") — through both swap handlers
+    let splash_roots: Vec<(&'static str, Vec<Op>)> = vec![
+        ("thin", vec![Op::Inc { pos: 0, liq: 1_000, v2: true }, Op::Inc { pos: 1, liq: 5, v2: false }]),
+        ("funded", vec![Op::Inc { pos: 0, liq: stdworlds::BIG, v2: false }]),
+    ];
+    v.push(stdworlds::build_with_roots(&stdworlds::splash_spec("c06-splash"), &splash_roots));
     if thorough {
         v.push(stdworlds::build_with_roots(&stdworlds::std_spec("c06-std-60000-2500", [Enc::Fixed, Enc::Fixed, Enc::Dynamic], 60000, 2500), &roots[1..]));
         v.push(stdworlds::build_with_roots(&stdworlds::std_spec("c06-std-0-0", [Enc::Dynamic, Enc::Dynamic, Enc::Fixed], 0, 0), &roots[1..3]));
@@ -40,6 +47,22 @@ fn alphabet(b: &Built) -> Vec<Op> {
         a.push(Op::SetFeeRate(60_000));
         a.push(Op::SetProtocolFeeRate(2_500));
         a.push(Op::SetProtocolFeeRate(1));
+        return a;
+    }
+    if b.name.contains("splash") {
+        let mut a = vec![];
+        for a_to_b in [true, false] {
+            for v2 in [false, true] {
+                a.push(Op::Swap { a_to_b, exact_in: true, amount: 5_000_000_000_000, lim: Lim::None, v2 }); // to the bound on the thin root
+                a.push(Op::Swap { a_to_b, exact_in: true, amount: u64::MAX >> 2, lim: Lim::None, v2 });
+            }
+            a.push(Op::Swap { a_to_b, exact_in: true, amount: 1_000_000, lim: Lim::None, v2: a_to_b });
+            a.push(Op::Swap { a_to_b, exact_in: false, amount: 1_000, lim: Lim::None, v2: !a_to_b });
+            a.push(Op::Swap { a_to_b, exact_in: false, amount: u64::MAX >> 2, lim: Lim::Bound, v2: a_to_b }); // partial exact-out to the bound
+        }
+        a.push(Op::Dec { pos: 0, part: Part::All, v2: true });
+        a.push(Op::Inc { pos: 1, liq: 1_000_000, v2: false });
+        a.push(Op::CollectProtocol { v2: true });
         return a;
     }
     if b.name.contains("deep") {
